@@ -105,7 +105,6 @@ def ensure_makefile():
 
 def make(targets, timeout=1500):
     """Build the given .vo targets (and their dependencies).  Returns (ok, log)."""
-    ensure_makefile()
     rc, out = sh(["timeout", str(timeout), "make", "-j%d" % NPROC] + targets, cwd=COQ,
                  timeout=timeout + 30)
     return rc == 0, out
@@ -156,11 +155,11 @@ def parse_props_output(out):
             cur = []
             blocks.append(cur)
         elif cur is not None:
-            if line.startswith(" ") or line.startswith("\t"):
-                m = re.match(r"\s*([A-Za-z_][\w.']*)\s*:", line)
-                if m:
-                    cur.append(m.group(1))
-            elif line.strip() == "":
+            # Coq prints each axiom name at column 0 ("name : type"), continuation lines indented
+            m = re.match(r"([A-Za-z_][\w.']*)\s*(:|$)", line)
+            if m:
+                cur.append(m.group(1))
+            elif line.startswith(" ") or line.startswith("\t") or line.strip() == "":
                 pass
             else:
                 cur = None
@@ -305,23 +304,24 @@ def run_check(pid, tier, replay=None):
         bootstrap.install(world)
     except SystemExit as ex:
         violations.append({"kind": "build-failed", "key": "build", "detail": str(ex), "case": None})
-    with Lock():
+    with Lock():   # short critical section: generated files and the Makefile only
         rejected = run_translators([mod])
-        for m, err in rejected:
-            violations.append({"kind": "translator-rejected-source", "key": "translator",
-                               "detail": err, "case": None,
-                               "names": "translator for %s" % ", ".join(getattr(m, "GEN_FILES", []))})
-        # model files first (cases need them even when a proof is broken)
-        model_ok, model_log = make(list(mod.MODEL_TARGETS) + ["CaseLib.vo"])
-        # ---- 2. proof obligations
-        props_rel = mod.PROPS_FILE
-        proof_ok, proof_log = make([props_rel + "o"])
-        assumptions_out = ""
-        if proof_ok:
-            ok2, assumptions_out = coqc(props_rel)
-            proof_ok = ok2
-            if not ok2:
-                proof_log = assumptions_out
+        ensure_makefile()
+    for m, err in rejected:
+        violations.append({"kind": "translator-rejected-source", "key": "translator",
+                           "detail": err, "case": None,
+                           "names": "translator for %s" % ", ".join(getattr(m, "GEN_FILES", []))})
+    # model files first (cases need them even when a proof is broken)
+    model_ok, model_log = make(list(mod.MODEL_TARGETS) + ["CaseLib.vo"])
+    # ---- 2. proof obligations
+    props_rel = mod.PROPS_FILE
+    proof_ok, proof_log = make([props_rel + "o"])
+    assumptions_out = ""
+    if proof_ok:
+        ok2, assumptions_out = coqc(props_rel)
+        proof_ok = ok2
+        if not ok2:
+            proof_log = assumptions_out
     thms, prints = props_theorems(props_rel)
     cov["obligations"] = len(thms)
     trusted = ["Coq 8.16.1 kernel (coqc, vm_compute); no native_compute",
